@@ -111,6 +111,32 @@ _append("C15", "Conversions and bit-error counting are also run on Fortran-order
 NOT_YET = {}
 
 
+# ---- additions made through seeding waves 4-8 and the false-alarm controls (DESIGN 9, 10) ----
+_COMMON = (" Oracle inputs come from the public surface (private names only through a tolerant helper); "
+           "nondeterminism seams are installed process-wide; an exception raised by the check's own code ends "
+           "as BROKEN (exit 2), never as a violation.")
+_append("C01", "Numpy-typed scalar arguments, large M*N blocks in non-C order, sibling / reconfigured objects (QPSK, PSK after setPhaseOffset) and phase offsets beyond one period are part of the alphabet." + _COMMON)
+_append("C02", "Odd fft sizes, memory == cp == fft, tied used-subcarrier counts across reconfigurations and frames of equal symbol count after a narrowed band are part of the histories." + _COMMON)
+_append("C03", "Carrier index selections of every length and order (negative, wrapped, descending), on-grid duplicate delays, single-tap profiles at a non-zero delay, reverse links with one sending antenna, queries between frequency-domain transmissions; the fading reference is a copy of the generator driven through its public API." + _COMMON)
+_append("C04", "Real / float32 / integer / complex64 channels and data, three consecutive decode rounds per state, filters observed through the public decode map, Nt = 1 and Nt >= 5, pairwise scale x structure families." + _COMMON)
+_append("C05", "Resume sequences: 2-3 simulate() calls on one runner that keeps partial results with the limit raised, kept and LOWERED, mixing all-variations and single-index calls; single-precision grids; single-index run without unpacked parameters; both look-up entry points (values and confidence intervals)." + _COMMON)
+_append("C06", "Empty histories at every position of either operand, identical grids in descending / shuffled order, parameter objects edited after being read, observation through to_dict / getters only." + _COMMON)
+_append("C07", "Restart variants: same parameters in another insertion order; float parameters differing by less than allclose tolerances; list / tuple parameters differing only in length; typed parameter values (tuple, numpy scalar, nested list) in both formats; the interrupted runner object itself restarted below and beyond the periodic save; single-index reuse after an in-place parameter change. The file a restart reads is asked from the library's public get_partial_results_filename; the crash layer and the clock are installed process-wide." + _COMMON)
+_append("C08", "Several link-budget-scale path losses (differences below any absolute tolerance), same user part with another external part; received data judged against the REPORTED noise; a randomize() that bypasses the seam makes the model learn the raw channel from the object; vacuity measured on the model side." + _COMMON)
+_append("C09", "Pairwise covering: histories x global scale 1e-12..1e12, zero external interference x every metric, re-layout (num_users reassigned) x same channel content." + _COMMON)
+_append("C10", "Unequal stream counts with K >= 3 run step by step on ONE solver object (150/400 iterations) plus a one-step first-principles optimality oracle of the MinLeakage update; every public call form of set_precoders in the full-power and backed-off regime; tiny powers with several streams." + _COMMON)
+_append("C11", "Sum capacity above 1100 bits and where 1+SINR rounds to 1; layout histories (same totals, other per-user split); noise_var / pe / powers as numpy scalars and ints; pe boundary family x every accessor with required (class, entry point, pe, noise) cells." + _COMMON)
+_append("C12", "Tolerances relative to the total power, exact rational optimum (fractions) for n <= 3, ratio family noise/(Es gain Pt) over 1e-48..1e48, every argument presentation (integer / float32 gains, numpy scalars), repeated calls with only Es changed." + _COMMON)
+_append("C13", "Every presentation of one distance x policy x entry point; 16 broadcast shape pairs for wall counts; 12 memory layouts x clamp policy; query events of every entry point inside setter histories; clone events (copy / deepcopy / pickle)." + _COMMON)
+_append("C14", "Single requests whose temporary crosses 2^20..2^23 elements with a follow-up request; every returned array kept uncopied to the end of the history; typed sizes x positions beyond 2^31 / 2^32; Fd == 0 lifecycle histories; clone events; formula-free relations keep full strength when the phases are unreadable." + _COMMON)
+_append("C15", "Bit-error counting over the whole uint64 range and on arrays of 4095..2^18+5 (2^20+3) elements; sibling objects of one configuration after one owner re-labelled its table in place.")
+_append("C16", "Packet length, scalar SNR and M at construction in 13 scalar forms; PSK(2) at very low SNR and with phase offsets; the QPSK subclass against its emitted constellation; same SNR buffer rewritten in place x packet-length path." + _COMMON)
+_append("C17", "Edit-after-read histories of parameter objects; TYPE axis of file-name injectivity (Python / numpy scalars, children of unpacked arrays); order-independent names (lone names computed in forked children, every ordered pair of value-equal objects of different dtype); Fortran-ordered non-square arrays; ragged lists." + _COMMON)
+_append("C18", "Prime selection judged through the public Nzc for every size 25..1200; numpy-typed flags / integers / cover-code containers; shift 0 x normalize on shared roots; 1-tap channels with interferers; batched least-squares with real pilots." + _COMMON)
+_append("C19", "Every uniform entry point of numpy.random is scripted (and the rest seeded); the oracle judges accepted users and termination only; negative rotations, 13-cell centroid, quarter-turn non-square rectangles, mixed cell families of equal count in one process, query-warmed caches x setters." + _COMMON)
+_append("C20", "Degenerate (1xn, mx1) and wide shapes real and complex for every kernel; update kernel 10 structures x 4 diagonal kinds; chordal pairs of different dimension; tiny-magnitude matrices on the orthogonal-projection path." + _COMMON)
+
+
 def main():
     props = [json.loads(l) for l in open(os.path.join(root, "properties.jsonl"))]
     checks = []
